@@ -231,6 +231,58 @@ def run(F, chk):
                               fn["name"], {"param": "caller-supplied", "ref": "reference-derived"}.get(kind, "file-table-derived"), sidx))
     chk.floor(R4, 8)
 
+    # ---------------------------------------------------------------- R15.5
+    R5 = chk.rule("R15.5", "in load / query / save / copy code, every subscript of a block's member container by a caller-supplied "
+                           "index is dominated by a comparison of that index with the size of the same container or with the "
+                           "count member its reader sizes it to")
+    import arrays, paths as _paths, c02 as _c02
+    from paths import render as _render
+    S5 = _paths.Summarizer(F, _c02.make_primitive(F), mode=flow.MODE_READ, value_proxies=True,
+                           node_kinds=("Call", "OpCall", "Construct", "Assign", "Unary"))
+    counter_of = {}
+    for cls in F.block_classes():
+        for fn_ in [f for f in F.fns.values() if f.get("cls") == cls and f["short"] == "Sync" and f.get("tmpl") != "pattern"]:
+            for ev in S5.events(fn_["id"]):
+                if ev.kind == "mut" and ev.info["op"] == "resize" and ev.path and ev.path[0][0] == "this" and len(ev.path) == 2 \
+                        and ev.info.get("size_path") and len(ev.info["size_path"]) == 2:
+                    counter_of[(cls, ev.path[1])] = ev.info["size_path"][1]
+    chk.extra["array_counter_pairs"] = len(counter_of)
+    for fid in sorted(scope3):
+        fn = F.fns.get(fid)
+        if not fn or fn.get("tmpl") == "pattern" or fn.get("cls") != "nifly::NifFile":
+            continue
+        pids = {p["id"] for p in fn.get("params", [])}
+        subs = []
+        for x in walk(fn.get("body") or {}):
+            if x["k"] != "Subscript":
+                continue
+            i, b = peel(x["idx"]), peel(x["base"])
+            if is_node(i) and i["k"] == "Ref" and i.get("id") in pids and is_node(b) and b["k"] == "Member" and \
+                    b.get("mk") == "field" and arrays._is_dyn_container(b.get("ct") or b.get("t")) and \
+                    F.derives_from(b.get("owner") or "", "nifly::NiObject"):
+                subs.append((x, i, b))
+        if not subs:
+            continue
+        ids = {id(x) for x, _, _ in subs}
+        col = flow.Collect(F, fn, lambda n: id(n) in ids)
+        col.run()
+        info = {id(x): (i, b) for x, i, b in subs}
+        for x, sts in col.by_node():
+            i, b = info[id(x)]
+            obj = show(b.get("base")) if b.get("base") is not None else ""
+            bounds = ["%s.size()" % show(b)]
+            for c in [b.get("owner")] + F.ancestors(b.get("owner")):
+                if (c, b["name"]) in counter_of:
+                    bounds.append(("%s.%s" % (obj, counter_of[(c, b["name"])])) if obj else counter_of[(c, b["name"])])
+            ok = all(_index_bounded(st, i["name"], bounds) for st in sts)
+            chk.instance(R5, ok=ok, sample={"fn": fn["name"], "container": show(b), "index": i["name"], "accepted_bounds": bounds})
+            if not ok:
+                chk.violation("R15.5", "C15/R15.5:%s:%s[%s]" % (fn["name"].split("(")[0], show(b), i["name"]), where(fn, x),
+                              "%s reads `%s[%s]` without comparing the index with that container's size (%s): a reference "
+                              "redirected to a block with fewer elements, or an index taken from a sibling list, reads past the "
+                              "array" % (fn["name"], show(b), i["name"], " or ".join(bounds)))
+    chk.floor(R5, 5)
+
     chk.assumptions += [
         "pointers handed out by block payload classes (HasX()/XRef() pairs, index-tested accessors) follow those classes' own "
         "invariants and are not lookup results",
@@ -297,6 +349,21 @@ def header_range_guards(F):
             s = show(i)
             ok = all(_upper_bounded(st, s) for st in sts)
             yield fn, n, s, kind, ok, None
+
+
+def _index_bounded(st, idx, bounds):
+    """a guard `idx (+c) < / <= bound` for one of the accepted bound expressions of the same container"""
+    if st is None:
+        return True
+    import re
+    for f in st:
+        if f[0] != "G" or not (f[1].startswith("(") and " < " in f[1]):
+            continue
+        a, b = f[1][1:-1].split(" < ", 1)
+        lo, hi = (a, b) if f[2] else (b, a)   # f true: a < b ; f false: b <= a
+        if re.search(r"\b%s\b" % re.escape(idx), lo) and any(bd in hi for bd in bounds):
+            return True
+    return False
 
 
 def _hdr_table(e):
